@@ -55,6 +55,7 @@ def check(ck):
     r10_11(ck)
     r10_12(ck)
     r10_13(ck)
+    r10_14(ck)
 
 
 def _ret_tuples(fi):
@@ -69,6 +70,32 @@ def _kinds_of_tuple(t):
     return [kind_of(A.unparse(e)) for e in t.elts]
 
 
+def _agree(a, b):
+    """Two kind sequences agree when they have the same length and no
+    position carries two different kinds (a name that says nothing about
+    its kind - None - agrees with anything)."""
+    return len(a) == len(b) and all(
+        x == y for x, y in zip(a, b) if x is not None and y is not None)
+
+
+def positional_kinds(fnode):
+    """{local name: kind} for the names that unpack the 6-tuple result of
+    Store.apply_update in ``fnode``: the kind is given by the position
+    (names need not say it)."""
+    out = {}
+    for c in A.calls_in(fnode, 'apply_update'):
+        st = c
+        while not isinstance(st, ast.stmt):
+            st = st._parent
+        if isinstance(st, ast.Assign) and isinstance(
+                st.targets[0], ast.Tuple) and len(
+                st.targets[0].elts) == 6:
+            for k, e in zip(KINDS, st.targets[0].elts):
+                if isinstance(e, ast.Name):
+                    out[e.id] = k
+    return out
+
+
 def r10_7(ck):
     ck.rule('R10.7', 'tuple-order agreement: each consumer unpacks the '
             'update lists in the order its producer returns them')
@@ -81,7 +108,7 @@ def r10_7(ck):
     if not prod:
         return
     order = _kinds_of_tuple(prod[0].value)
-    ck.require(order == KINDS, 'R10.7', sa, prod[0],
+    ck.require(_agree(order, KINDS), 'R10.7', sa, prod[0],
                'order: topology, process, step, flow, deletions, expire',
                'Store.apply_update returns its lists in the order %s' %
                order, prod[0])
@@ -96,7 +123,8 @@ def r10_7(ck):
                     st.targets[0].elts) == 6:
                 n += 1
                 got = _kinds_of_tuple(st.targets[0])
-                ck.require(got == order, 'R10.7', fi, st,
+                ck.require(_agree(got, order) and _agree(got, KINDS),
+                           'R10.7', fi, st,
                            'unpack order equals the return order of '
                            'Store.apply_update',
                            'the result of Store.apply_update is unpacked as '
@@ -120,7 +148,7 @@ def r10_7(ck):
                     st.targets[0], ast.Tuple):
                 n += 1
                 got = _kinds_of_tuple(st.targets[0])
-                ck.require(got == porder, 'R10.7', sa, st,
+                ck.require(_agree(got, porder), 'R10.7', sa, st,
                            'unpack order equals the return order of '
                            'Store.' + meth,
                            'Store.%s returns %s but its result is unpacked '
@@ -132,7 +160,8 @@ def r10_7(ck):
                     ext = [x for x in A.calls_in(sa.node, 'extend')
                            if x.args and A.is_name(x.args[0], nm)]
                     ok = bool(ext) and all(kind_of(A.unparse(
-                        A.call_receiver(x))) == k for x in ext)
+                        A.call_receiver(x))) in (k, None) or k is None
+                        for x in ext)
                     ck.require(ok, 'R10.7', sa, st,
                                '%s is folded into the %s list' % (nm, k),
                                'the %s reported by Store.%s are not folded '
@@ -147,11 +176,11 @@ def r10_7(ck):
                 st.targets[0], ast.Tuple) and len(st.targets[0].elts) == 6:
             for e in st.targets[0].elts[:5]:
                 nm = A.unparse(e)
-                k = kind_of(nm)
+                k = KINDS[list(st.targets[0].elts).index(e)]
                 ext = [x for x in A.calls_in(sa.node, 'extend')
                        if x.args and A.is_name(x.args[0], nm)]
                 ok = bool(ext) and all(kind_of(A.unparse(
-                    A.call_receiver(x))) == k for x in ext)
+                    A.call_receiver(x))) in (k, None) for x in ext)
                 ck.require(ok, 'R10.7', sa, st,
                            "a child's %s list is folded into this node's "
                            '%s list' % (k, k),
@@ -178,7 +207,7 @@ def r10_1(ck):
         if loop is None or not isinstance(loop.target, ast.Tuple) or \
                 not isinstance(loop.iter, ast.Name):
             continue
-        k = kind_of(loop.iter.id)
+        k = local_kind(f.node, loop.iter.id)
         if k not in want:
             continue
         found[k] = c
@@ -206,6 +235,22 @@ def r10_1(ck):
     ck.floor('R10.1', len(found), 4, 'folded lists')
 
 
+def local_kind(fnode, name):
+    """Kind of a local of Engine.apply_update: by its position in the
+    unpacked store result, else by the single positional local it is
+    computed from, else by what its name says."""
+    pk = positional_kinds(fnode)
+    if name in pk:
+        return pk[name]
+    kinds = set()
+    for d in local_defs(fnode).get(name, []):
+        if d.value is not None:
+            kinds |= {pk[x] for x in A.names_in(d.value) if x in pk}
+    if len(kinds) == 1:
+        return kinds.pop()
+    return kind_of(name)
+
+
 def r10_2(ck):
     ck.rule('R10.2', 'registration: every reported process reaches '
             '_add_process_path, every step _add_step_path with its '
@@ -218,7 +263,7 @@ def r10_2(ck):
         out = []
         for n in A.walk_no_nested(f.node):
             if isinstance(n, ast.For) and isinstance(n.iter, ast.Name) and \
-                    kind_of(n.iter.id) == kind:
+                    local_kind(f.node, n.iter.id) == kind:
                 out.append(n)
         return out
     for kind, meth in (('process', '_add_process_path'),
@@ -255,7 +300,7 @@ def r10_2(ck):
                     return False
                 ok = derives(f.node, dep, from_flow, at=c) and derives(
                     f.node, dep, lambda x: isinstance(x, ast.Name) and
-                    kind_of(x.id) == 'flow', at=c, depth=4)
+                    local_kind(f.node, x.id) == 'flow', at=c, depth=4)
                 ck.require(ok, 'R10.2', f, c,
                            "the step's dependencies are its flow entry of "
                            'the same batch',
@@ -267,7 +312,8 @@ def r10_2(ck):
     for kind in ('process', 'step'):
         par = False
         for d in [x for lst in local_defs(f.node).values() for x in lst]:
-            if kind_of(d.name) == kind and d.value is not None and any(
+            if local_kind(f.node, d.name) == kind and \
+                    d.value is not None and any(
                     A.call_name(c) == '_parallelize_processes'
                     for c in A.calls_in(d.value)):
                 par = True
@@ -301,6 +347,37 @@ def _loop(x, stop):
     return None
 
 
+ROLES = ('process_updates', 'step_updates', 'flow_updates',
+         'topology_updates', 'deletions')
+
+
+def reporter_names(fnode):
+    """role -> local name, read off the tuple a reporter (Store.move,
+    insert, divide) returns: (processes, steps, flow, topology[,
+    deletions]).  Falls back to the role names themselves."""
+    out = {r: r for r in ROLES}
+    for r in A.walk_no_nested(fnode):
+        if isinstance(r, ast.Return) and isinstance(r.value, ast.Tuple) and \
+                len(r.value.elts) in (4, 5) and all(
+                    isinstance(e, ast.Name) for e in r.value.elts):
+            for role, e in zip(ROLES, r.value.elts):
+                out[role] = e.id
+    return out
+
+
+def returned_lists(fnode):
+    """Locals that are assigned a list literal and appear in a returned
+    value."""
+    lists = {nm for nm, ds in local_defs(fnode).items()
+             if any(d.kind == 'assign' and isinstance(d.value, ast.List)
+                    for d in ds)}
+    out = set()
+    for r in A.walk_no_nested(fnode):
+        if isinstance(r, ast.Return) and r.value is not None:
+            out |= A.names_in(r.value) & lists
+    return out
+
+
 def r10_3(ck):
     ck.rule('R10.3', 'reporters partition nodes: one node is reported as '
             'process or as step on exclusive branches of an is_step() test; '
@@ -309,10 +386,11 @@ def r10_3(ck):
     for q in ('Store.move', 'Store.divide'):
         f = ck.fn(q, 'core.store')
         cfg = cfg_of(f.node)
+        N = reporter_names(f.node)
         pa = [c for c in A.calls_in(f.node, 'append')
-              if A.unparse(A.call_receiver(c)) == 'process_updates']
+              if A.unparse(A.call_receiver(c)) == N['process_updates']]
         sa = [c for c in A.calls_in(f.node, 'append')
-              if A.unparse(A.call_receiver(c)) == 'step_updates']
+              if A.unparse(A.call_receiver(c)) == N['step_updates']]
         ck.require(bool(pa) and bool(sa), 'R10.3', f, f.node.name,
                    q + ' reports processes and steps separately',
                    q + ' no longer reports both processes and steps')
@@ -336,7 +414,8 @@ def r10_3(ck):
     mv = ck.fn('Store.move', 'core.store')
     cfg = cfg_of(mv.node)
     fa = [c for c in A.calls_in(mv.node, 'append')
-          if A.unparse(A.call_receiver(c)) == 'flow_updates']
+          if A.unparse(A.call_receiver(c)) == reporter_names(
+              mv.node)['flow_updates']]
     ck.require(bool(fa), 'R10.3', mv, mv.node.name,
                'move reports the flow of moved steps',
                'Store.move no longer reports the flow of moved steps')
@@ -355,7 +434,8 @@ def r10_3(ck):
                        ('step_updates', 'steps'), ('flow_updates', 'flow'),
                        ('topology_updates', 'topology')):
         ext = [c for c in A.calls_in(ins.node, ('extend', 'append'))
-               if A.unparse(A.call_receiver(c)) == lst]
+               if A.unparse(A.call_receiver(c)) == reporter_names(
+                   ins.node)[lst]]
 
         def from_field(x, field=field):
             if isinstance(x, ast.Subscript) and A.is_name(x.value, param) \
@@ -380,7 +460,8 @@ def r10_3(ck):
     for q in ('Store.insert', 'Store.divide'):
         fq = ck.fn(q, 'core.store')
         fl = [c for c in A.calls_in(fq.node, ('extend', 'append'))
-              if A.unparse(A.call_receiver(c)) == 'flow_updates' and c.args]
+              if A.unparse(A.call_receiver(c)) == reporter_names(
+                  fq.node)['flow_updates'] and c.args]
         for c in fl:
             okf = derives(fq.node, c.args[0], lambda x: isinstance(
                 x, ast.Call) and A.call_name(x) == 'dict_to_paths', at=c)
@@ -393,9 +474,16 @@ def r10_3(ck):
                        'them as legacy sequential derivers' % q, c)
     dv = ck.fn('Store.divide', 'core.store')
     ext = [c for c in A.calls_in(dv.node, 'extend')
-           if A.unparse(A.call_receiver(c)) == 'flow_updates']
-    ok = bool(ext) and all(derives(dv.node, c.args[0], lambda x: A.is_name(
-        x, 'flow'), at=c) for c in ext)
+           if A.unparse(A.call_receiver(c)) == reporter_names(
+               dv.node)['flow_updates']]
+    # the flow reported is the one the daughter was generated with
+    gflow = {A.unparse(A.arg_of(g, 3, 'flow'))
+             for g in A.calls_in(dv.node, 'generate')
+             if A.is_name(A.call_receiver(g), 'self')
+             and A.arg_of(g, 3, 'flow') is not None}
+    ok = bool(ext) and bool(gflow) and all(derives(
+        dv.node, c.args[0], lambda x: isinstance(x, ast.Name)
+        and x.id in gflow, at=c) for c in ext)
     ck.require(ok, 'R10.3', dv, ext[0] if ext else dv.node.name,
                "divide reports each daughter's flow", None)
     # explicit daughter steps are generated together with the processes
@@ -458,6 +546,26 @@ def r10_4(ck):
                     g = cfg.guards(cfg.node(c))
                     ok = any(a[0] == 'truthy' and 'starts_with(' in a[1]
                              for a in g)
+                    # any further condition must not exclude a kind of step
+                    for a in sorted(g):
+                        if a[0] == 'truthy' and 'starts_with(' in a[1]:
+                            continue
+                        fine = False
+                        if a[0] == 'in' and a[2] == 'self._step_graph':
+                            cont = ck.repo.method('_StepGraph',
+                                                  '__contains__')
+                            txt = A.unparse(cont.node) if cont else ''
+                            fine = 'self._graph' in txt and \
+                                'self._sequential_steps' in txt
+                        ck.require(fine, 'R10.4', f, c,
+                                   'a deleted step is removed from the step '
+                                   'graph whatever kind of step it is',
+                                   'the removal from the step graph is '
+                                   'conditional on %s, which does not cover '
+                                   'sequential steps (those without a flow '
+                                   'entry): a deleted deriver stays listed '
+                                   'and runs twice when its path comes back'
+                                   % (a,), c)
         n += ok
         ck.require(ok, 'R10.4', f, 'remover for self.' + reg,
                    'entries under the deleted prefix are removed from '
@@ -480,8 +588,9 @@ def r10_4(ck):
     ok = False
     for c in calls:
         lp = _loop(c, ea.node)
-        if lp is not None and isinstance(lp.iter, ast.Name) and kind_of(
-                lp.iter.id) == 'deletion' and A.unparse(
+        if lp is not None and isinstance(lp.iter, ast.Name) and (
+                positional_kinds(ea.node).get(lp.iter.id)
+                or kind_of(lp.iter.id)) == 'deletion' and A.unparse(
                 A.arg_of(c, 0)) == A.unparse(lp.target):
             ok = cfge.must_pass(cfge.loops[id(lp)]['body_entry'],
                                 cfge.loops[id(lp)]['header'],
@@ -535,9 +644,11 @@ def r10_6(ck):
     n = 0
     for q in ('Store.move', 'Store.insert', 'Store.divide', 'Store.delete'):
         f = ck.fn(q, 'core.store')
+        rl = returned_lists(f.node)
+        here_p = (A.params_of(f.node) + [None, None, None])[2]
         for c in A.calls_in(f.node, ('append', 'extend')):
             recv = A.unparse(A.call_receiver(c))
-            if not (recv.endswith('_updates') or recv == 'deletions'):
+            if recv not in rl:
                 continue
             if not c.args:
                 continue
@@ -546,7 +657,7 @@ def r10_6(ck):
             def absolute(x):
                 if isinstance(x, ast.Call) and A.call_name(x) == 'path_for':
                     return True
-                if isinstance(x, ast.Name) and x.id == 'here' and \
+                if isinstance(x, ast.Name) and x.id == here_p and \
                         q == 'Store.delete':
                     return True
                 return False
@@ -559,7 +670,8 @@ def r10_6(ck):
     ck.floor('R10.6', n, 12, 'report sites')
     d = ck.fn('Store.delete', 'core.store')
     cfg = cfg_of(d.node)
-    ok = any(isinstance(s, ast.Assign) and A.is_name(s.targets[0], 'here')
+    ok = any(isinstance(s, ast.Assign) and A.is_name(
+        s.targets[0], A.params_of(d.node)[2])
              and isinstance(s.value, ast.Call) and A.call_name(
                  s.value) == 'path_for' and A.is_name(
                  A.call_receiver(s.value), 'self')
@@ -578,9 +690,18 @@ def r10_6(ck):
                        None, c)
     mv = ck.fn('Store.move', 'core.store')
     # the new paths are rooted at the *target*
-    tp = [d2 for d2 in local_defs(mv.node).get('target_path', [])]
-    ok = bool(tp) and all('target.path_for()' in A.unparse(d2.value) and
-                          'source_path' in A.unparse(d2.value) for d2 in tp)
+    # roles: the node returned by add_node, and the path handed to it
+    tv = sp = None
+    for s2 in A.walk_no_nested(mv.node):
+        if isinstance(s2, ast.Assign) and isinstance(
+                s2.value, ast.Call) and A.call_name(s2.value) == \
+                'add_node' and isinstance(s2.targets[0], ast.Name):
+            tv = s2.targets[0].id
+            sp = A.unparse(A.arg_of(s2.value, 0, 'path'))
+    tp = [d2 for lst in local_defs(mv.node).values() for d2 in lst
+          if tv and d2.value is not None and d2.kind == 'assign'
+          and '%s.path_for()' % tv in A.unparse(d2.value)]
+    ok = bool(tp) and all(sp in A.unparse(d2.value) for d2 in tp)
     ck.require(ok, 'R10.6', mv, tp[0].stmt if tp else 'target_path',
                'moved processes are reported under the target path plus '
                'the source key', None)
@@ -719,7 +840,7 @@ def r10_8(ck):
     n = 0
     for a in A.calls_in(mv.node, 'append'):
         r = A.unparse(A.call_receiver(a))
-        if not r.endswith('_updates') or not a.args or not isinstance(
+        if r not in returned_lists(mv.node) or not a.args or not isinstance(
                 a.args[0], ast.Tuple):
             continue
         pe = a.args[0].elts[0]
@@ -752,7 +873,14 @@ def r10_8(ck):
                 if A.is_name(A.call_receiver(g), 'self')]
         for g in gens:
             gp = eval_path(f.node, A.arg_of(g, 0, 'path'), g)
-            for d in local_defs(f.node).get('root', []):
+            # the root under which the new subtree is reported: the base
+            # handed to dict_to_paths
+            roots = {A.unparse(A.arg_of(c2, 0)) for c2 in A.calls_in(
+                f.node, 'dict_to_paths') if isinstance(
+                A.arg_of(c2, 0), ast.Name)}
+            for d in [d for r_ in sorted(roots)
+                      for d in local_defs(f.node).get(r_, [])
+                      if d.kind == 'assign']:
                 rv = eval_path(f.node, d.value, d.stmt)
                 want = normalise([('node', 'self')] + (gp or []))
                 ok = rv is not None and gp is not None and \
@@ -892,10 +1020,12 @@ def r10_11(ck, rule='R10.11'):
                 if 'self.front.pop(' in v or 'self.front[' in v:
                     carried = True
     loops = [l for l in A.walk_no_nested(ea.node) if isinstance(l, ast.For)
-             and isinstance(l.iter, ast.Name) and kind_of(l.iter.id) ==
-             'deletion']
+             and isinstance(l.iter, ast.Name) and local_kind(
+                 ea.node, l.iter.id) == 'deletion']
+    # the construct is named by its role (local names may change)
     ck.require(carried, rule, ea,
-               loops[0] if loops else 'handling of reported deletions',
+               'loop handing every reported deletion to _delete_path',
+               
                'front entries of moved processes are transferred to their '
                'new path',
                'the engine treats a move as delete + add: the front entry '
@@ -904,6 +1034,15 @@ def r10_11(ck, rule='R10.11'):
                'never applied and the process, still holding an unfetched '
                'command, cannot be invoked again',
                loops[0] if loops else None)
+
+
+def r10_14(ck):
+    from . import c04
+    rf = RunFor(ck)
+    ck.shared('R10.14', 'a process or step is run on the store that is in '
+              'the hierarchy now: the engine looks the store up at every '
+              'invocation and keeps no per-path cache of stores or views',
+              lambda c: c04.r04_3(c, rf))
 
 
 def r10_12(ck):
